@@ -333,8 +333,13 @@ func ruleC02_4(c *Ctx, r *Rep) {
 						}
 					}
 					ok = ok && has
+					// payload and attributes are stored as they were handed in: the value itself, not something a call
+					// computed from it (re-encoding a JSON payload changes numbers beyond 2^53, key order, escapes)
+					if sp[0] != "order_key" && !strings.HasSuffix(strings.TrimLeft(valKey(m.Arg), "*"), sp[1]) {
+						ok = false
+					}
 				}
-				r.Check("C02.4", "C02.4:messages."+sp[0]+"←"+sp[1], cr[0].Pos, ok, "", "messages."+sp[0]+" is not stored from "+sp[1]+" alone")
+				r.Check("C02.4", "C02.4:messages."+sp[0]+"←"+sp[1], cr[0].Pos, ok, "", "messages."+sp[0]+" is not stored from "+sp[1]+" alone, unchanged")
 			}
 		}
 	}
